@@ -437,9 +437,12 @@ func (m *Muxer) Close() {
 	m.closed = true
 	m.mutex.Unlock()
 
+	verifYield("close.afterUnlock")
 	m.cond.Broadcast()
+	verifYield("close.afterBroadcast")
 
 	for _, stream := range m.streams {
+		verifYield("close.beforeStreamClose")
 		stream.close()
 	}
 }
@@ -529,6 +532,7 @@ func (m *Muxer) rotateParts(nextDTS time.Duration) error {
 		return err
 	}
 
+	verifYield("rotate.beforeBroadcast")
 	m.cond.Broadcast()
 
 	return nil
@@ -566,6 +570,7 @@ func (m *Muxer) rotateSegments(
 		return err
 	}
 
+	verifYield("rotate.beforeBroadcast")
 	m.cond.Broadcast()
 
 	return nil
